@@ -330,7 +330,10 @@ class CDATASection(Text, Childless):
         """
         if self.data:
             data = _handle_unrepresentable(unicode(self.data))
-            f.write('<![CDATA[%s]]>' % data.replace(']]>',']]]]><![CDATA[>'))
+            data = data.replace(']]>',']]]]><![CDATA[>')
+            # a literal CR would be read back as LF: leave the section for it
+            data = data.replace('\r',']]>&#13;<![CDATA[')
+            f.write('<![CDATA[%s]]>' % data)
 
 class Element(Node):
     """ Creates a arbitrary element and is intended to be subclassed not used on its own.
